@@ -122,11 +122,11 @@ def _validate(rep, files, parallel, timeout):
         for c in sorted(by_case):
             ev = json.loads(lines[c - 1])
             inits = sorted(by_case[c])
-            # the verdict of TLC is attached to the (copy of the) event so that known findings can be matched precisely
-            ev["bad_what"] = inits[0][1].split(",")[0].strip()
-            ev["bad_reg"] = inits[0][1].split(",")[1].strip() if "," in inits[0][1] else ""
+            # the verdict of TLC is attached to the (copy of the) event
+            verdict = inits[0][1]
+            ev["bad_what"] = verdict.split(",")[0].strip()
+            ev["bad_regs"] = sorted(x.strip() for x in re.findall(r"\{(.*)\}", verdict)[0].split(",")) if "{" in verdict else []
             ev["bad_inits"] = [i for i, _ in inits]
-            ev["bad_reg_has_cast_to_smaller_view"] = ev["bad_reg"] in ev.get("casts_to_smaller_view_of_base", [])
             what = "case idx=%s of %s: lifted block disagrees with the P-Code reference semantics (%s) for initial states %s" % (
                 ev.get("idx"), os.path.basename(f), inits[0][1], [i for i, _ in inits])
             cex = ""
